@@ -95,4 +95,24 @@ Definition handle_ode (cmd : string) (args : list sexp) : option sexp :=
         end
     | _ => Some (err "bad args")
     end
+  else if String.eqb cmd "ode.jactext" then
+    (* the text of every Jacobian entry of the species block (C02.jac_text_is_derivative), row-major;
+       "none" for an entry holding a modifier factor *)
+    match args with
+    | [ns_; rs; ms; hs; cs; als] =>
+        match get_input [ns_; rs; ms; hs; cs], get_list get_str als with
+        | Some i, Some als =>
+            let name := fun v => chars ("IDX_" ++ nth v als "?") in
+            let mag := fun n => chars (print_Z (Z.of_nat n)) in
+            let n := n_eqns i in
+            Some (L (map (fun rc : nat * nat =>
+                            match tterms_of (nth (fst rc * n + snd rc) (st_jac (ode_terms i)) []) with
+                            | Some ts => A (str (flatten_with mag name (rhs_txt ts)))
+                            | None => A "none"
+                            end)
+                         (flat_map (fun r => map (fun c => (r, c)) (seq 0 (i_nspec i))) (seq 0 (i_nspec i)))))
+        | _, _ => Some (err "bad ode input")
+        end
+    | _ => Some (err "bad args")
+    end
   else None.
